@@ -12,7 +12,8 @@ RULE = ("toy-word: one whole step from a state whose instruction register holds 
 ASSUMPTIONS = ["TOY memory of the default size 4096 for the reference comparison; smaller memories are exercised for error paths only"]
 MODELLED = "model↔code link is differential (sampled / exhaustive over instruction words in the thorough tier)"
 
-CORE = list(range(0, 13))     # state fields without getters
+CORE = [0, 1, 2, 3, 4, 8, 11]     # pc, accu, memory, loaded instruction, max_pc, counters, done (markers, visualisation values,
+                                  # next_cycle and has_started are C20's business)
 
 
 class ToyWord(Slice):
@@ -31,7 +32,7 @@ class ToyWord(Slice):
     def run(self, case, model):
         it = T.impl_toy_trace(case["spec"], case["ops"], getters=False)
         mt = T.norm_model_toy(model.call([10, case["spec"], case["ops"]]), getters=False)
-        d = T.compare_toy(it, mt)
+        d = T.compare_toy(it, mt, fields=CORE)
         w = case["spec"][4][0]
         return ([("disagreement", d)] if d else []), ["opc:%d" % (w >> 12)]
 
@@ -53,7 +54,7 @@ class ToyProg(Slice):
     def run(self, case, model):
         it = T.impl_toy_trace(case["spec"], case["ops"], getters=False, other=case.get("other"))
         mt = T.norm_model_toy(model.call([10, case["spec"], case["ops"]]), getters=False)
-        d = T.compare_toy(it, mt)
+        d = T.compare_toy(it, mt, fields=CORE)
         last = it[-1][1]
         cl = set()
         if last[8][0] >= 3:
